@@ -28,7 +28,7 @@ MANIFEST = {
             "Exception class from a catalogue with a symbolic argument, 0..2 positional and keyword arguments with "
             "symbolic values, sequences of up to 3 execute calls): the payload ran exactly once with the very argument "
             "objects in its flavour's own thread/loop, the caller got the very object / the very exception, the runtime "
-            "still reports running, bystander heartbeats of every flavour still advance and a further execute succeeds.",
+            "still reports running, bystander heartbeats of every flavour still advance and a further execute succeeds. Next to the solver-decided claim, ENUMERATED real-runtime scenarios (nested execute, six overlapping callers, the same payload with equal-but-distinct arguments) are run concretely and reported as such.",
     "note": "NOT claimed: interleavings/timing; same-flavour execute from inside a coroutine (excluded by the statement); "
             "keyword names colliding with execute's own parameters (payload, flavour)",
     "design_ref": "DESIGN.md §4 C10",
